@@ -166,7 +166,7 @@ TrWriteS2C ==
           /\ (E.a = 1) <=> ~cut
           /\ ~cut => /\ s2c'[Len(s2c')].seq = E.seq
                      /\ (s2c'[Len(s2c')].err <=> (E.b = 1))
-                     /\ (c \notin Pings => E.c = c)
+                     /\ E.c = (IF c \in Pings THEN 0 ELSE c)   \* a heartbeat answer has no body
     /\ Adv
 
 TrSrvEOF == IsEv("v.eof") /\ SrvEOF /\ Adv
